@@ -76,6 +76,12 @@ func relativeName(parent v1.Object, obj *unstructured.Unstructured) string {
 	return obj.GetName()
 }
 
+// RelativeName returns the name under which obj is kept in a RelativeObjectMap
+// (and recorded in ControllerRevisions) of the given parent.
+func RelativeName(parent v1.Object, obj *unstructured.Unstructured) string {
+	return relativeName(parent, obj)
+}
+
 // ReplaceObjectIfExists replaces the object with the same name & namespace as
 // the given object with the contents of the given object. If no object exists
 // in the existing map then no action is taken.
